@@ -321,9 +321,28 @@ class Check:
             raise CoqEvalError("coqc failed: %s" % (r.stderr or r.stdout)[-2000:])
         return " ".join(r.stdout.split())
 
+    def coqchk(self, timeout=1500):
+        """Thorough tier: re-check the property's compiled theorems (and everything they depend on)
+        with the independent checker and record the axioms it reports."""
+        r = subprocess.run(["timeout", str(timeout), "coqchk", "-silent", "-o", "-R", str(COQ), "NV",
+                            "NV.%s.Properties" % self.pid], capture_output=True, text=True, cwd=str(COQ))
+        out = (r.stdout or "") + (r.stderr or "")
+        m = re.search(r"CONTEXT SUMMARY(.*)", out, re.S)
+        summary = " ".join((m.group(1) if m else out[-1500:]).split())
+        self.cov["coqchk"] = {"exit": r.returncode, "summary": summary[:4000]}
+        if r.returncode != 0:
+            self.fail("coqchk-rejected", "coqchk did not accept the compiled development: %s" % summary[-400:],
+                      {"kind": "coqchk", "output_tail": out[-2000:]}, found_input=False)
+
     # ------------------------------------------------------------ finish
     def finish(self):
         self.coq_broken_report()
+        if self.thorough() and self.build is not None and self.build.ok and self.build.theorems \
+                and os.environ.get("VERIF_NO_COQCHK") != "1":
+            try:
+                self.coqchk()
+            except Exception as e:  # noqa
+                self.note("coqchk could not be run: %s" % e)
         self.cov["distinct_nontrivial"] = len(self._distinct)
         b = self.build
         cov = self.cov
